@@ -46,8 +46,8 @@ def run(ctx):
                             "%s: the value the implementation serialises does not conform to the schema types of its line `%s`: %s"
                             % (ids[crc][0], ids[crc][1][:160], T.short(g)),
                             {"kind": "E", "type": name, "value": g, "schema_line": ids[crc][1], "oracle": "TL/Conform.v conforms"})
-            if mspec == "illtyped":
-                continue
+            if mspec in ("illtyped", "foreign"):
+                continue   # not a value of the schema (nested constructor outside the schema files)
             if mspec.startswith("ok") or ic.startswith("ok"):
                 compared += 1
                 if ic.startswith("ok"):
